@@ -1077,6 +1077,20 @@ def S1(ctx, rule="S1"):
                           sorted(fields), [m.fngraph_fields()[f] for f in sorted(fields) if f < len(m.fngraph_fields())], pi),
                       "callers disagree on / obscure what is passed for parameter %d of the set-up function: fields %s, other %s" % (
                           pi, sorted(fields), [fmt_src(u) for u in unknown]))
+    # (5b) what the set-up function hands on as THE structure is the selected one: it derives from both structure fields (which
+    # one depends on the order), not from one of them whatever was selected
+    paired = setup_paired_structure(ctx)
+    if paired is not None:
+        got = set()
+        for s_ in paired:
+            if s_.kind == "param" and s_[1] == setup.id:
+                got |= param_field.get(s_[2], (set(), []))[0]
+            elif s_.kind == "param" and len(s_[3]) >= 1 and isinstance(s_[3][0], int):
+                got.add(s_[3][0])
+        ctx.check({fwd_f, rev_f} <= got, rule, "selected-structure", m.where(setup),
+                  "the structure the set-up function returns with the counts is the one selected by the order (either structure field can reach it)",
+                  "the set-up function always returns the same structure field (%s) whatever the order selected: the counts of the other "
+                  "direction are walked over it" % sorted(got))
     # (6) StreamOpts::rev / default
     S1_opts(ctx, rule)
     ctx.floor(rule, 8, "pairing-chain obligations")
